@@ -5,6 +5,7 @@ package main
 
 import (
 	"fmt"
+	"go/token"
 	"go/types"
 	"strings"
 
@@ -245,6 +246,96 @@ func (R *Run) ruleSingleBufferedReader() {
 						if argIdx < len(cal.Params) {
 							walk(cal, cal.Params[argIdx], top, depth+1)
 						}
+					}
+				}
+			}
+			// a buffering reader created inside a function literal of f that captures the connection (an iterator, a
+			// deferred step): it is created anew every time the literal runs
+			for _, af := range f.AnonFuncs {
+				var mc *ssa.MakeClosure
+				eachInstr(f, func(ins ssa.Instruction) {
+					if m, ok := ins.(*ssa.MakeClosure); ok && m.Fn == ssa.Value(af) {
+						mc = m
+					}
+				})
+				if mc == nil {
+					continue
+				}
+				inner := map[ssa.Value]bool{}
+				for i, b := range mc.Bindings {
+					if i >= len(af.FreeVars) {
+						continue
+					}
+					bound := false
+					if alias[stripConv(b)] {
+						bound = true
+					} else if al, isA := b.(*ssa.Alloc); isA {
+						if v, single := singleStore(al); single && alias[stripConv(v)] {
+							bound = true
+						}
+					}
+					if !bound {
+						continue
+					}
+					fv := af.FreeVars[i]
+					inner[fv] = true
+					if fv.Referrers() != nil {
+						for _, r := range *fv.Referrers() {
+							if u, isU := r.(*ssa.UnOp); isU && u.Op == token.MUL {
+								inner[u] = true
+							}
+						}
+					}
+				}
+				if len(inner) == 0 {
+					continue
+				}
+				for _, ci := range callsIn(af) {
+					c := ci.Common()
+					n := calleeName(c)
+					if n != "bufio.NewScanner" && n != "bufio.NewReader" && n != "bufio.NewReaderSize" || len(c.Args) == 0 || !inner[stripConv(c.Args[0])] {
+						continue
+					}
+					// how often can the literal run? once if its value (or the result of the helper that returns it) has one use
+					var holder ssa.Value = mc
+					top := via
+					if via != nil {
+						if v, ok := via.(ssa.Value); ok {
+							holder = v
+						}
+					} else {
+						top = mc
+					}
+					uses := 0
+					if holder.Referrers() != nil {
+						for _, r := range *holder.Referrers() {
+							if _, dbg := r.(*ssa.DebugRef); !dbg {
+								uses++
+							}
+						}
+					}
+					// … or the value travels through variables and is called (ranged over) at more than one place
+					dyn := 0
+					for _, g := range withAnons(rootFn(f)) {
+						for _, cj := range callsIn(g) {
+							cc := cj.Common()
+							if cc.IsInvoke() || cc.StaticCallee() != nil {
+								continue
+							}
+							if _, isB := cc.Value.(*ssa.Builtin); isB {
+								continue
+							}
+							if sg, ok := cc.Value.Type().Underlying().(*types.Signature); ok && types.Identical(sg, af.Signature) {
+								dyn++
+							}
+						}
+					}
+					if dyn > 1 && uses <= 1 {
+						uses = dyn
+					}
+					wraps = append(wraps, wrap{P.ipos(ci), top, n + " inside a function literal"})
+					if uses > 1 {
+						wraps = append(wraps, wrap{P.ipos(ci), top, n + " inside a function literal that is used more than once (a new reader each time it runs)"})
 					}
 				}
 			}
